@@ -152,9 +152,54 @@ def api_verdicts(report, paths, storage):
                                      storage, kind, limit, "rejects" if rejected else "accepts", "rejected" if expected else "accepted"))
 
 
+def named_pipes(report, paths, folder):
+    """
+    'each file being judged': a data file may be a named pipe, which hands out its content once. The command is run in a
+    subprocess while a thread feeds the pipe; the verdict must be the one of the same content in a regular file.
+    """
+    import threading
+    for kind, expected in (("fieldRejected", 1), ("accepted", 0), ("dupRejected", 1)):
+        with open(paths[kind], "rb") as source:
+            content = source.read()
+        for trial in range(3):
+            fifo = os.path.join(folder, "pipe_%s_%d.csv" % (kind, trial))
+            os.mkfifo(fifo)
+
+            def feed():
+                try:
+                    with open(fifo, "wb") as target:  # (blocks until the command opens the pipe)
+                        target.write(content)
+                except OSError:
+                    pass
+
+            feeder = threading.Thread(target=feed, daemon=True)
+            feeder.start()
+            process = subprocess.Popen(["/venv/bin/python", "-m", "cutplace.applications", paths["cid:valid"], fifo], cwd=core.REPO,
+                                       stdout=subprocess.DEVNULL, stderr=subprocess.DEVNULL)
+            try:
+                code = process.wait(timeout=60)
+            except subprocess.TimeoutExpired:
+                process.kill()
+                process.wait()
+                code = "no answer within 60 s"
+            # release a feeder that is still waiting for somebody to open the pipe
+            try:
+                os.close(os.open(fifo, os.O_RDONLY | os.O_NONBLOCK))
+            except OSError:
+                pass
+            feeder.join(10)
+            os.remove(fifo)
+            report.replayed += 1
+            if code != expected:
+                report.violation("c18", {"pipe": kind, "storage": "csv"}, expected, code,
+                                 "csv: cutplace cid.csv <named pipe with the content of the %s file> answers %r but must answer %r" % (
+                                     kind, code, expected))
+                return
+
+
 def replay(behaviour, report=None):
     core.import_repo()
-    if "api" in behaviour:
+    if "api" in behaviour or "pipe" in behaviour:
         return []
     folder = core.workdir("c18replay")
     try:
@@ -187,6 +232,8 @@ def run(tier, report):
                 tracelib.disable_hooks()
             paths = materialise(os.path.join(folder, storage), storage) if os.makedirs(os.path.join(folder, storage), exist_ok=True) is None else None
             api_verdicts(report, paths, storage)
+            if storage == "csv":
+                named_pipes(report, paths, os.path.join(folder, storage))
             chosen = vectors if (storage == "csv" or tier == "thorough") else rng.sample(vectors, 700)
             shapes = {}
             for vec in chosen:
